@@ -5,7 +5,7 @@
      X^T X = 2,  C^-1/2 = 1/sqrt 2,  C^1/2 = sqrt 2,  C~ = 2              (feature space) *)
 From mathcomp Require Import all_ssreflect all_algebra.
 From mathcomp Require Import ring.
-From Verif Require Import MExp MExpMx PCovR PCovRP PCovRProg KyFan C14Thm C04Thm.
+From Verif Require Import MExp MExpMx PCovR PCovRP PCovRProg KyFan C14Thm C04Thm PCovRNested.
 Set Implicit Arguments.
 Unset Strict Implicit.
 Unset Printing Implicit Defensive.
@@ -209,6 +209,15 @@ End Example.
 
 Section Example2.
   Variable F : rcfType.
+
+  (* nestedness hypotheses for k = 0 -> k + 1 = 1 (the truncation of one component to none) *)
+  Lemma ex_nested (mix : F) :
+    [/\ nested_oracle 2 1 0 (ex_env mix), fit_oracle 2 1 1 (0 + 1) (ex_env mix) true,
+        centred 2 1 (ex_env mix) & forall i, e_tol (ex_env mix) < e_S (0 + 1) (ex_env mix) i 0].
+  Proof.
+    have [c s f [r _ _]] := ex_nonvacuous mix; split=> //.
+    by split; apply/matrixP=> i j; [case: j | case: j | case: i].
+  Qed.
 
   (* two fits of the same data with mixings 1/3 < 2/3, the limits 1 and 0 *)
   Lemma ex_c04 :
